@@ -340,6 +340,21 @@ class PointsTo:
             return [ck]
         if isinstance(key, ast.Name) and fn is not None:
             bl = self.res.bindings(fn).get(key.id, [])
+            if len(bl) == 1 and bl[0][0] == "param" and key.id != fn.self_name and not getattr(self, "_ck_active", False):
+                # a parameter: the constants it receives at every call site of the function (all of them must be readable)
+                sites = [(c_, call_, b_) for c_, call_, b_ in self.res.callsites_of(fn) if c_ is not None]
+                out = []
+                self._ck_active = True
+                try:
+                    for c_, call_, b_ in sites:
+                        a_ = b_.get(key.id)
+                        ks = self.const_keys(a_, c_) if isinstance(a_, ast.AST) else None
+                        if ks is None:
+                            return None
+                        out += ks
+                finally:
+                    self._ck_active = False
+                return sorted(set(out)) if sites and out else None
             # the innermost enclosing loop that binds the name decides (the same name may be reused by another loop)
             par = self.prog.parent.get(key)
             while par is not None and par is not fn.node:
@@ -350,6 +365,15 @@ class PointsTo:
                     # for flag, key, value in ((True, "comment", comment), ...): the column of the table the name stands for
                     col = [i for i, t in enumerate(par.target.elts) if isinstance(t, ast.Name) and t.id == key.id][0]
                     table = par.iter
+                    # for key, value in TABLE.items() with TABLE a dictionary display (module level or local, bound once)
+                    if col == 0 and isinstance(table, ast.Call) and isinstance(table.func, ast.Attribute) and table.func.attr == "items" and not table.args \
+                            and isinstance(table.func.value, ast.Name):
+                        nm = table.func.value.id
+                        tb = self.res.bindings(fn).get(nm, [])
+                        d = tb[0][1] if len(tb) == 1 and tb[0][0] == "value" else (fn.module.assigns[nm][0] if not tb and fn.module is not None and len(fn.module.assigns.get(nm, [])) == 1 else None)
+                        if isinstance(d, ast.Dict) and d.keys and all(k is not None and const_str(k) is not None for k in d.keys):
+                            return [const_str(k) for k in d.keys]
+                        return None
                     if isinstance(table, ast.Name):
                         tb = self.res.bindings(fn).get(table.id, [])
                         if len(tb) == 1 and tb[0][0] == "value":
